@@ -1,35 +1,35 @@
 import VtlModel.Sem.HierChLemmas
-/-! Key uniqueness and permutation invariance of `check_hierarchy`: `dedup`, groups, blocks of rows. -/
+/-! Key uniqueness and permutation invariance of `check_hierarchy`: `hdedup`, groups, blocks of rows. -/
 namespace VtlModel.Sem
 open List
 
-/-! ### dedup -/
+/-! ### hdedup -/
 
-theorem dedup_mem {α : Type} [DecidableEq α] : ∀ (l : List α) (a : α), a ∈ dedup l ↔ a ∈ l := by
+theorem hdedup_mem {α : Type} [DecidableEq α] : ∀ (l : List α) (a : α), a ∈ hdedup l ↔ a ∈ l := by
   intro l
   induction l with
-  | nil => intro a; simp [dedup]
+  | nil => intro a; simp [hdedup]
   | cons b l ih =>
     intro a
-    simp only [dedup, List.mem_cons, List.mem_filter, ih, bne_iff_ne, ne_eq]
+    simp only [hdedup, List.mem_cons, List.mem_filter, ih, bne_iff_ne, ne_eq]
     by_cases h : a = b
     · simp [h]
     · simp [h]
 
-theorem dedup_nodup {α : Type} [DecidableEq α] : ∀ (l : List α), (dedup l).Nodup := by
+theorem hdedup_nodup {α : Type} [DecidableEq α] : ∀ (l : List α), (hdedup l).Nodup := by
   intro l
   induction l with
   | nil => exact List.nodup_nil
   | cons b l ih =>
-    simp only [dedup, List.nodup_cons, List.mem_filter, bne_iff_ne, ne_eq, not_and, Decidable.not_not]
+    simp only [hdedup, List.nodup_cons, List.mem_filter, bne_iff_ne, ne_eq, not_and, Decidable.not_not]
     exact ⟨fun _ => trivial, (List.filter_sublist).nodup ih⟩
 
-theorem dedup_perm {α : Type} [DecidableEq α] {l l' : List α} (h : l.Perm l') : (dedup l).Perm (dedup l') := by
+theorem hdedup_perm {α : Type} [DecidableEq α] {l l' : List α} (h : l.Perm l') : (hdedup l).Perm (hdedup l') := by
   induction h with
   | nil => exact Perm.refl _
   | cons a _ ih => exact Perm.cons a (ih.filter _)
   | swap a b l =>
-    simp only [dedup, List.filter_cons]
+    simp only [hdedup, List.filter_cons]
     by_cases hab : a = b
     · subst hab
       simp
@@ -55,7 +55,7 @@ theorem proj_eq_of_get (r1 r2 : Row) (ns : List String) (h : ∀ n ∈ ns, r1.ge
 theorem groupsOf_mem (x : DS) (rc : String) (other items : List String) (g : Row) (h : g ∈ groupsOf x rc other items) :
     ∃ r ∈ x.rows, g = r.proj other := by
   unfold groupsOf at h
-  rw [dedup_mem] at h
+  rw [hdedup_mem] at h
   obtain ⟨r, hr, rfl⟩ := List.mem_map.1 h
   exact ⟨r, (List.mem_filter.1 hr).1, rfl⟩
 
@@ -73,7 +73,7 @@ theorem group_ext (x : DS) (rc : String) (other items : List String) (g1 g2 : Ro
 theorem groupsOf_perm (x x' : DS) (rc : String) (other items : List String) (h : x.rows.Perm x'.rows) :
     (groupsOf x rc other items).Perm (groupsOf x' rc other items) := by
   unfold groupsOf
-  exact dedup_perm ((h.filter _).map _)
+  exact hdedup_perm ((h.filter _).map _)
 
 theorem initSt_congr (x x' : DS) (rc m : String) (w : x.WF) (h : DSEquiv x x') : initSt x rc m = initSt x' rc m := by
   funext g ci
@@ -172,7 +172,7 @@ theorem chRows_WF (x : DS) (rc m : String) (mode : HMode) (out : DPOut) (items :
     subst h
     rw [List.map_append]
     refine List.nodup_append.2 ⟨?_, ih b hn.2 hb, ?_⟩
-    · refine mapRows_nodup_inj _ _ _ a ha (dedup_nodup _) ?_
+    · refine mapRows_nodup_inj _ _ _ a ha (hdedup_nodup _) ?_
       intro g1 hg1 g2 hg2 r1 r2 hf1 hf2 hk
       obtain ⟨w1, _, _, _, rfl⟩ := (chRow_some_iff mode out _ rc m ρ _ g1 r1).1 hf1
       obtain ⟨w2, _, _, _, rfl⟩ := (chRow_some_iff mode out _ rc m ρ _ g2 r2).1 hf2
